@@ -165,8 +165,31 @@ EMB_TEMPLATES = [
     "foo `1 + 2` bar", "use ``a ` b`` here", "```\nx = \"s\"\n``` done", "no code", "`unterminated", "a `b` c `d", "``x",
     "é `\"é\"` é", "line\n`1`\nline", "`a\nb`", "``` a", "`", "``", "```", "a``b```c`",
 ]
+BOUNDARY_CPS = [0x7F, 0x80, 0x7FF, 0x800, 0xFFFD, 0xFFFE, 0xFFFF, 0x10000, 0x10FFFF]
 BAD_BYTES = [b"\xff", b"\x80", b"\xc3", b"\xe2\x82", b"\xf0\x9f\x98", b"\xc0\xaf", b"\xed\xa0\x80", b"\x1b[31m", b"\x00",
-             b"\r", b"\r\n", b"\n", "é".encode(), "日".encode(), "😀".encode()]
+             b"\r", b"\r\n", b"\n", "é".encode(), "日".encode(), "😀".encode()] + [chr(c).encode() for c in BOUNDARY_CPS]
+
+
+# boundary code points, as VALID characters: ends of the 1/2/3/4-byte encodings, the rune utf8.RuneError itself
+# (U+FFFD, which a decoder also answers for INVALID input), the non-characters next to it, the first/last supplementary
+# every lexing mode with a hole (§) for one character, always followed by further tokens ON THE SAME LINE
+BOUNDARY_CONTEXTS = [
+    ("n", 'x § y + 1'), ("n", 'a§b = c + 1'), ("n", '"a§b" + c.d'), ("n", '"§" + "§" + e'), ("n", '"a${x}§${y}" + c'),
+    ("n", '"a $x§ #y" + c'), ("n", "'raw§' + c"), ("n", "`§` + c"), ("n", "r`§` + c"), ("n", '%/a§b/i + c'),
+    ("n", '%/a${x}§/ + c'), ("n", '\\w[a§ §b c§d] + e'), ("n", '\\s[§a b§] + e'), ("n", '^w[§] + e'), ("n", '%s[a§] + e'),
+    ("n", '#[ c § c ]# x + 1'), ("n", '##[ d § ]## def f; end'), ("n", 'x + 1 # c § c'), ("n", ':"s§" + c'),
+    ("n", '@"i§" + c'), ("n", '$"g§" + c'), ("n", 'f(§) + g(1)'), ("n", '"\\§" + c'), ("n", '"a\\x§" + c'),
+    ("e", 'text § ˋcodeˋ more § text'), ("e", 'a ˋ"§" + §ˋ b § c'), ("e", '§ ``x § y`` z'),
+]
+
+
+def boundary_grid():
+    out = []
+    for m, t in BOUNDARY_CONTEXTS:
+        t = t.replace("ˋ", "`").replace("\\\\", "\\")
+        for cp in BOUNDARY_CPS:
+            out.append((m, t.replace("§", chr(cp)).encode("utf-8", "surrogatepass"), "boundary-grid"))
+    return out
 
 
 def mutate(rng, b, ctx=None):
@@ -205,6 +228,7 @@ def gen_inputs(ctx, seeds):
     for t in EMB_TEMPLATES:
         out.append(("e", t.encode(), "template-emb"))
         out.append(("n", t.encode(), "template"))
+    out += boundary_grid()
     # invalid UTF-8 / CRLF at every position of the templates (deterministic sweep)
     sweep = [b"\xff", b"\xe2\x82"] if ctx.quick else BAD_BYTES
     for t in MODE_TEMPLATES + EMB_TEMPLATES:
